@@ -10,32 +10,48 @@ def hist(prop):
             "argv": [VH, "dhcp-hist", "--prop", prop], "timeout_quick": 600, "timeout_thorough": 7200}
 
 
+def vh(name, engine, cmd, tq=600, tt=7200):
+    return {"name": name, "engine": engine, "argv": [VH, cmd], "timeout_quick": tq, "timeout_thorough": tt}
+
+
+A_HIST = [
+    "time passes by shifting stored timestamps (hook H2); every comparison in the lease store is relative to now",
+    "client identity and pool membership are computed by the harness from the generated world, independently of erbium",
+    "harness built with overflow-checks and debug-assertions on; panics observed through a panic hook",
+]
+
 PROPERTIES = {
-    "C01": {
-        "level": "exploration",
-        "legs": [hist("C01")],
-        "assumptions": [
-            "time passes by shifting stored timestamps (hook H2); every comparison in the lease store is relative to now",
-            "client identity and pool membership are computed by the harness from the generated world, independent of erbium",
-        ],
-    },
-    "C05": {
-        "level": "exploration",
-        "legs": [{"name": "c05-decoders-inproc", "engine": "c05", "argv": [VH, "c05"],
-                  "timeout_quick": 600, "timeout_thorough": 7200}],
-        "assumptions": ["harness built with overflow-checks and debug-assertions on; panics observed through a panic hook"],
-    },
-    "C09": {"level": "exploration", "legs": [hist("C09")], "assumptions": []},
-    "C10": {"level": "exploration", "legs": [hist("C10")], "assumptions": []},
-    "C12": {
-        "level": "exploration",
-        "legs": [{"name": "c12-wire-inproc", "engine": "c12", "argv": [VH, "c12"],
-                  "timeout_quick": 600, "timeout_thorough": 7200}],
-        "assumptions": ["reference DHCP and Ethernet/IPv4/UDP codecs written from the RFCs are the trusted base"],
-    },
-    "C13": {"level": "exploration", "legs": [hist("C13")], "assumptions": []},
-    "C18": {"level": "exploration", "legs": [hist("C18")], "assumptions": []},
-    "C20": {"level": "exploration", "legs": [hist("C20")], "assumptions": []},
+    "C01": {"level": "exploration", "legs": [hist("C01")], "assumptions": A_HIST},
+    "C02": {"level": "exploration", "legs": [vh("c02-address-sets-inproc", "c02", "c02")],
+            "assumptions": ["the documented address set D is computed by model/policy.rs, written from erbium.conf(5)",
+                            "pools larger than 64 addresses are judged by size and boundary membership, not drained"]},
+    "C03": {"level": "exploration", "legs": [vh("c03-reply-construction-inproc", "c03", "c03")],
+            "assumptions": ["reference DNS codec (refcodec/dns.rs) written from RFC 1035/3597/6891 is the trusted base"]},
+    "C04": {"level": "exploration", "legs": [vh("c04-size-inproc", "c04", "c04")],
+            "assumptions": ["reference DNS codec is the trusted base"]},
+    "C05": {"level": "exploration", "legs": [vh("c05-decoders-inproc", "c05", "c05")],
+            "assumptions": ["harness built with overflow-checks and debug-assertions on; panics observed through a panic hook; 120 s watchdog per call"]},
+    "C06": {"level": "exploration", "legs": [vh("c06-cache-inproc", "c06", "c06")],
+            "assumptions": ["the cache is driven through hook H3 (same key construction, lifetime, insert, lookup and expiry code as handle_query) under tokio's paused clock"]},
+    "C08": {"level": "exploration", "legs": [vh("c08-acl-inproc", "c08", "c08")],
+            "assumptions": ["independent first-match model in legs/c08.rs; IPv6 prefixes against plain IPv4 clients are left unconstrained"]},
+    "C09": {"level": "exploration", "legs": [hist("C09")], "assumptions": A_HIST},
+    "C10": {"level": "exploration", "legs": [hist("C10")], "assumptions": A_HIST},
+    "C11": {"level": "exploration", "legs": [vh("c11-policy-model-inproc", "c11", "c11")],
+            "assumptions": ["independent model of erbium.conf(5) in model/policy.rs; option 121, policy-level $self4, match-interface and empty list values are unconstrained"]},
+    "C12": {"level": "exploration", "legs": [vh("c12-wire-inproc", "c12", "c12")],
+            "assumptions": ["reference DHCP and Ethernet/IPv4/UDP codecs written from the RFCs are the trusted base"]},
+    "C13": {"level": "exploration", "legs": [hist("C13")], "assumptions": A_HIST},
+    "C14": {"level": "exploration", "legs": [vh("c14-roundtrip-inproc", "c14", "c14")],
+            "assumptions": ["reference DNS codec with pointer validation is the trusted base"]},
+    "C16": {"level": "exploration", "legs": [vh("c16-bucket-cookie-inproc", "c16", "c16")],
+            "assumptions": ["burst B and rate R are read from the code's constants (hook H3)"]},
+    "C17": {"level": "exploration", "legs": [vh("c17-ra-inproc", "c17", "c17")],
+            "assumptions": ["RA decoder written from RFC 4861/8106/8781/8910 is the trusted base; RDNSS/DNSSL lifetime when not configured is unconstrained"]},
+    "C18": {"level": "exploration", "legs": [hist("C18")], "assumptions": A_HIST},
+    "C19": {"level": "exploration", "legs": [vh("c19-config-inproc", "c19", "c19", 900, 7200)],
+            "assumptions": ["pools beyond 2^20 addresses (IPv4 prefixes /1../11, wide ranges) are skipped and counted: memory exhaustion is not what the property names"]},
+    "C20": {"level": "exploration", "legs": [hist("C20")], "assumptions": A_HIST},
 }
 
 # Properties not claimed (yet): id -> reason.  Kept current by hand; see DESIGN.md section 5.
